@@ -113,6 +113,11 @@ func outcomeClass(s string) string {
 	case s == "panic":
 		return "panic"
 	case len(s) >= 4 && s[:4] == "err:":
+		for i := 4; i < len(s); i++ {
+			if s[i] == ':' {
+				return s[:i]
+			}
+		}
 		return s
 	case len(s) >= 3 && s[:3] == "ok:":
 		return "ok"
